@@ -2,7 +2,7 @@
     distribution whose fit, cdf and ppf behave like a location-scale family under a change of units -- stated
     relationally (the sample may be equal to the converted one only up to ==); satisfiable by the rational family. *)
 From Coq Require Import QArith Qabs ZArith List Bool String Lia Lqa.
-From IV Require Import QL NP Dist Ecdf QFacts QListFacts Affine GenWindows GenUtils GenScalars Grid Driver Driver_rel C06_instances C02_proofs ApplyLocation_units RatLS RatLS_proofs.
+From IV Require Import QL NP Dist Ecdf QFacts QListFacts Affine Affine_debiasers GenWindows GenUtils GenScalars Grid Driver Driver_rel C06_instances C02_proofs ApplyLocation_units RatLS RatLS_proofs.
 Import ListNotations.
 Open Scope Q_scope.
 
@@ -43,6 +43,26 @@ Proof.
   assert (Q : GenUtils.threshold_cdf_vals (cdf D (fit D f) x) thr == GenUtils.threshold_cdf_vals (cdf D (fit D f') x') thr) by (apply thr_proper; symmetry; apply Cf; exact Hx).
   unfold AR in *. rewrite (Po _ _ Q), (Ph _ _ Q), Hx. ring.
 Qed.
+
+(** QuantileDeltaMapping (absolute, year window off): fits from the window's obs / cm_hist *)
+Variables (em : ecdf_method) (tq cth : Q).
+Hypothesis Hem : em = step_function \/ em = linear_interpolation.
+Definition W_qdm_fit := fun o h f => unwrap (qdm_apply_debiasing_steps em tq "absolute" D false cth f (fit D o) (fit D h)).
+
+Lemma W_qdm_rel o o' h h' f f' : good o -> good h -> good f -> ARL a b o o' -> ARL a b h h' -> ARL a b f f' ->
+  ARL a b (W_qdm_fit o h f) (W_qdm_fit o' h' f').
+Proof.
+  intros No Nh Nf Ho Hh Hf. unfold W_qdm_fit.
+  destruct (Hfit o o' No Ho) as [_ Po]. destruct (Hfit h h' Nh Hh) as [_ Ph].
+  destruct (qdm_abs_unit_change D em tq cth Hem a b Ha f f' (fit D o) (fit D h) (fit D o') (fit D h') Hf
+              (fun p => Po p p (Qeq_refl p)) (fun p => Ph p p (Qeq_refl p))) as (out & out' & E & E' & R).
+  rewrite E, E'. exact R.
+Qed.
+
+Theorem qdm_apply_location_unit_change L S dobs dhist dfut obs hist fut obs' hist' fut' :
+  windows_ok good good good L S dfut dobs dhist dfut obs hist fut -> ARL a b obs obs' -> ARL a b hist hist' -> ARL a b fut fut' ->
+  same_in_other_unit a b (driver_rw Q L S dobs dhist dfut obs hist fut W_qdm_fit) (driver_rw Q L S dobs dhist dfut obs' hist' fut' W_qdm_fit).
+Proof. intros Hw Ho Hh Hf. exact (driver_rw_rel_ok (AR a b) (AR a b) (AR a b) (AR a b) _ _ good good good W_qdm_rel L S dobs dhist dfut obs obs' hist hist' fut fut' Hw Ho Hh Hf). Qed.
 
 (** lifted through the day-window loop *)
 Theorem qm_param_apply_location_unit_change thr L S dobs dhist dfut obs hist fut obs' hist' fut' :
